@@ -102,13 +102,18 @@ func extVrtAssert(fr *frame, args []value) value {
 }
 
 func extVrtReach(fr *frame, args []value) value {
-	fr.i.path.reached[tagOf(args[0])] = true
+	l := tagOf(args[0])
+	fr.i.path.reached[l] = true
+	if l == "end" && fr.i.cfg.Params["__twin"] == 1 {
+		// vacuity twin: the end of the harness must be reachable
+		fr.i.path.check(smt.False, "twin: end reached", siteOf(fr))
+	}
 	return nil
 }
 
 func extVrtObserve(fr *frame, args []value) value {
 	p := fr.i.path
-	p.obs = append(p.obs, tagOf(args[0])+"="+fr.i.describe(args[1]))
+	p.obs = append(p.obs, obsEntry{tagOf(args[0]), args[1]})
 	return nil
 }
 
@@ -156,23 +161,41 @@ func extVrtSetFile(fr *frame, args []value) value {
 	return nil
 }
 
-// describe renders a value for observations: concrete scalars and strings
-// literally, symbolic ones under the current model.
-func (i *interpreter) describe(v value) string {
+// describeUnder renders a value the way vrt.Observe prints it natively,
+// symbolic parts evaluated under the model.
+func describeUnder(v value, model map[string]uint64, memo map[*smt.Term]uint64) string {
 	switch x := v.(type) {
 	case iface:
 		if x.t == nil {
 			return "nil"
 		}
-		return i.describe(x.v)
+		if b := basicOf(x.t); b != nil {
+			if t, ok := x.v.(*smt.Term); ok {
+				u := smt.Eval(t, model, memo)
+				if b.Kind() == types.Bool {
+					return fmt.Sprint(u != 0)
+				}
+				if signedKind(b.Kind()) {
+					sh := 64 - uint(t.W)
+					return fmt.Sprint(int64(u<<sh) >> sh)
+				}
+				return fmt.Sprint(u)
+			}
+		}
+		return describeUnder(x.v, model, memo)
 	case *smt.Term:
-		return fmt.Sprintf("sym(%d)", int64(i.path.eval(x)))
+		u := smt.Eval(x, model, memo)
+		if x.W == 0 {
+			return fmt.Sprint(u != 0)
+		}
+		sh := 64 - uint(x.W)
+		return fmt.Sprint(int64(u<<sh) >> sh)
 	case sstr:
 		var sb strings.Builder
 		for _, b := range x.b {
-			sb.WriteByte(byte(i.path.eval(byteTerm(b))))
+			sb.WriteByte(byte(smt.Eval(byteTerm(b), model, memo)))
 		}
-		return fmt.Sprintf("symstr(%q)", sb.String())
+		return fmt.Sprintf("%q", sb.String())
 	case string:
 		return fmt.Sprintf("%q", x)
 	case bool, int, int8, int16, int32, int64, uint, uint8, uint16, uint32, uint64:
